@@ -3,7 +3,7 @@ from ..ref import lex as rlex
 
 VOCAB = (list(rlex.KEYWORDS) + list(rlex.PUNCT) +
          ["x", "y", "T", "foo", "0", "1", "42u", "0x1F", "017", "1.5", "1e3f", "0x1p3",
-          "'a'", "'\\n'", "L'a'", "'ab'", '"s"', 'L"s"', 'u8"s"', "089", "''", "@", "`", "\\",
+          "'a'", "'\\n'", "L'a'", "'ab'", "1uu", "10UlU", "0x7fUu", "1lul", "0x", "0b2", "1.2.3", "1e", "'\\q'", "_Atomic", "_Alignas", '"s"', 'L"s"', 'u8"s"', "089", "''", "@", "`", "\\",
           "#", "$", "/*", "//", "'", '"', "#pragma p\n", '# 3 "m.h"\n', "#define X\n"])
 BRACKETS = ["(", ")", "[", "]", "{", "}"]
 
